@@ -1262,6 +1262,14 @@ class PolyhedralTermList(TermList):  # noqa: WPS338
             logging.debug("Could not transform %s using Context reduction", term)
             raise ValueError("Could not transform term {}".format(term))
         matrix_row_terms_tl = PolyhedralTermList(list(matrix_row_terms))
+        # replacing the forbidden variables through the chosen rows amounts to adding a multiple of every row to
+        # the term: the result follows from (refine) or implies (relax) the term only if no multiple has the wrong sign
+        weights = np.linalg.solve(
+            np.array([[row.get_coefficient(var) for row in matrix_row_terms] for var in forbidden_vars]),
+            np.array([term.get_coefficient(var) for var in forbidden_vars]),
+        )
+        if np.any(weights < 0) if refine else np.any(weights > 0):
+            raise ValueError("Could not transform term {}".format(term))
         sols = PolyhedralTerm.solve_for_variables(matrix_row_terms_tl, list(forbidden_vars))
         # logging.debug("Sols %s", sols)
 
